@@ -44,6 +44,7 @@ type Seed struct {
 	Quick        bool              `json:"quick"`
 	Tiny         bool              `json:"tiny"`          // eligible for pair mutations
 	IdentityOnly bool              `json:"identity_only"` // run as is (tar variants, regression corpus)
+	CoupledOnly  bool              `json:"coupled_only"`  // a variant of another seed: only the coupled fields (singly and in pairs) are mutated
 	Origin       string            `json:"origin,omitempty"`
 	Source       string            `json:"source,omitempty"` // functest file the seed is a verbatim copy of
 	data         []byte
@@ -188,6 +189,7 @@ func buildSeeds(dir string) *seedBuilder {
 		}
 	}
 	b.edgeSeeds()
+	b.chainSeeds()
 	b.pgpSeeds()
 	b.tarSeeds()
 	b.pkcs7Seeds()
@@ -219,6 +221,28 @@ func (b *seedBuilder) edgeSeeds() {
 		}
 	}
 	// one-byte and whitespace-only inputs for every module are covered by truncation of the smallest seeds
+}
+
+// chainSeeds: the compound-file seeds with their FAT sector list continued in
+// a chain of two MSAT (DIFAT) sectors (see cfbWithMSATChain): the chain walk
+// in lib/comdoc readMSAT is not entered by files below 6.8 MB otherwise. The
+// rest of the file equals the seed it was made from, whose own mutations cover
+// it: only the coupled fields are mutated here.
+func (b *seedBuilder) chainSeeds() {
+	n := len(b.seeds)
+	for i := 0; i < n; i++ {
+		s := b.seeds[i]
+		if s.Kind != "pkg" || s.Layout != "cfb" || s.IdentityOnly {
+			continue
+		}
+		v := cfbWithMSATChain(s.data)
+		if v == nil {
+			b.notes = append(b.notes, fmt.Sprintf("seed %s: no MSAT-chain variant (file already has a chain or no free FAT entries)", s.Name))
+			continue
+		}
+		b.add(&Seed{Name: s.Name + ":msat-chain", Kind: "pkg", Module: s.Module, Ext: s.Ext, Layout: "cfb", Quick: s.Quick, CoupledOnly: true,
+			Origin: s.Name + " with two additional MSAT sectors appended and chained from the header"}, v)
+	}
 }
 
 // pgpSeeds: small clearsigned / detached / inline messages made with rsaA's
@@ -253,8 +277,8 @@ func (b *seedBuilder) tarSeeds() {
 	n := len(b.seeds)
 	for i := 0; i < n; i++ {
 		s := b.seeds[i]
-		if s.Kind != "pkg" {
-			continue
+		if s.Kind != "pkg" || s.CoupledOnly {
+			continue // (a variant's upload stream equals that of the seed it was made from but for the streams' order)
 		}
 		mod := signers.ByName(s.Module)
 		if mod == nil || mod.Transform == nil || mod.Name == "ps" || mod.Name == "pgp" {
